@@ -1445,7 +1445,7 @@ func init() {
 		Profiles: []*Profile{
 			{Name: "c10-isolation", MinOps: 12, MaxOps: 60, MaxConns: 4, Versions: []string{"1.2.3", "1.2.0", ""}, Protocol: true, Prologue: 60, RIDs: rids,
 				W: weightsWith(map[string]int{"badreq": 0, "burst": 0, "auth": 5, "call": 8, "new": 2, "mutate": 8, "custom": 4, "silent": 0, "sysreset": 2, "qmutate": 0, "qevent": 0,
-					"delete": 1, "reaccess": 3, "token": 14, "tokreset": 8, "httpget": 5, "httppost": 3, "subscribe": 16, "get": 5, "unsubscribe": 5, "close": 2, "connect": 6, "cidevent": 10, "connevent": 7}),
+					"delete": 1, "reaccess": 3, "token": 14, "tokreset": 8, "httpget": 5, "httppost": 6, "subscribe": 16, "get": 5, "unsubscribe": 5, "close": 2, "connect": 6, "cidevent": 10, "connevent": 7}),
 				AccessOut: map[string]int{"grant": 14, "calllist": 3, "deny": 2, "denied": 1},
 				GetOut:    map[string]int{"ok": 16, "notfound": 1},
 				CallOut:   map[string]int{"resource": 4, "result": 5, "err": 1},
